@@ -81,3 +81,17 @@ Definition chk_displ (pos : list (V3 float)) (tb : bond_table float) (k : nat) (
   | Err e, Err e' => if err_eqb e e' then AGREE else ERRMISMATCH
   | _, _ => ERRMISMATCH
   end.
+
+(* move_mol_atom with displ=None and recorded draws: move_mol_atom_default of the model, evaluated through chk_move
+   (same comparison and conditioning rule) on the displacement the model draws *)
+Definition chk_move_random (pos : list (V3 float)) (tb : bond_table float) (k : nat) (sigma_scale : float)
+  (u : V3 float) (neg : bool) (g : float) (obs : res (list (V3 float))) : nat :=
+  match find_atom_random_displ pos tb k sigma_scale u neg g with
+  | Ok d =>
+      match move_mol_atom_default pos tb k sigma_scale u neg g, move_mol_atom pos tb k d with
+      | Ok a, Ok b => if list_within 0 a b then chk_move pos tb k d obs else DISAGREE
+      | Err e, Err e' => if err_eqb e e' then chk_move pos tb k d obs else DISAGREE
+      | _, _ => DISAGREE
+      end
+  | Err e => match obs with Err e' => if err_eqb e e' then AGREE else ERRMISMATCH | Ok _ => ERRMISMATCH end
+  end.
